@@ -62,5 +62,5 @@ def generate(rng, tier):
 
 
 def shape_key(case, results):
-    t = case[0].split()
+    t = (case[0].split() if case else []) + ["?", "?", "?"]
     return "feat-%s-n%s" % (t[1], t[2])
